@@ -188,6 +188,33 @@ def unreachable_dc(ctx):
         c.time, c._sync_get_key, c._async_get_key = old
 
 
+
+def timezones(ctx):
+    """the interval named is a function of the clock reading alone — not of the process's local time zone: the same sweep in fresh
+    interpreters started under non-UTC zones (anything the library evaluates at import time is evaluated there)"""
+    import subprocess, sys, os, json
+    rng = ctx.rng
+    Y = 1024 * B
+    samples = [ticks_to_ns(k * Y + d) for k in (EPOCH // Y + 1, 361, 400) for d in (-1, 0, 1)] + [ticks_to_ns(rng.randrange(EPOCH + 1, 400 * Y)) for _ in range(6)]
+    samples = [x for x in samples if x >= 0]
+    here = os.path.dirname(os.path.dirname(os.path.abspath(__file__)))
+    code = ("import sys, json; sys.path.insert(0, %r); from props import c09; print(json.dumps([c09.impl_indices(ns) for ns in %r]))" % (here, samples))
+    for tz in ("AEST-10", "PST8PDT", "IST-5:30", "UTC0"):
+        env = dict(os.environ, TZ=tz)
+        try:
+            out = subprocess.run([sys.executable, "-c", code], env=env, capture_output=True, text=True, timeout=120)
+            got = json.loads(out.stdout.strip().splitlines()[-1])
+        except Exception as e:  # noqa
+            ctx.notes.append(f"time zone sweep under TZ={tz} could not run: {type(e).__name__}")
+            continue
+        for ns, g in zip(samples, got):
+            want = "ok %d %d %d" % oracle(ns // 100 + EPOCH)
+            ctx.count("timezone:" + tz)
+            if g != want:
+                ctx.violation("the interval named depends on the process's local time zone", {"scenario": "timezone", "TZ": tz, "time_ns": ns}, g, want)
+                return
+
+
 def advancing_clock(ctx):
     """a clock that moves during the call: the key identifier must name the interval of ONE instant the clock showed
     (L0, L1 and L2 taken from different readings can name a key hours or a year in the past)"""
@@ -308,6 +335,7 @@ def run(ctx):
     ctx.compare_batch(cases, nontrivial=lambda line, impl: True)
     advancing_clock(ctx)
     unreachable_dc(ctx)
+    timezones(ctx)
     seeded_cache(ctx)
     cache_histories(ctx)
 
@@ -330,6 +358,12 @@ def search(ctx, broken, disagreements):
 
 def replay(ctx, payload):
     v = payload["violation"]
+    if v["input"].get("scenario") == "timezone":
+        c2 = type(ctx)(ctx.prop, "quick", ctx.seed)
+        timezones(c2)
+        for x in c2.violations:
+            print(" ", x["what"], x["input"], x["observed"])
+        return not c2.violations
     if v["input"].get("scenario") == "unreachable_dc":
         c2 = type(ctx)(ctx.prop, "quick", ctx.seed)
         unreachable_dc(c2)
